@@ -33,7 +33,7 @@ def coq_case(o):
         F(o['w']), coq_env(o['env'], o['f']), coq_list([coq_pulse(p) for p in o['pulses']]),
         coq_list([cx(v) for v in o['cur']]), F(o['power']), F(o['ff_power']), F(o['dist']), dirs)
 
-def run_stage(chk, rng, ncases, grounds=(None, None, 'ideal', 'ideal', 'real', 'real'), task='ff', tol=2e-9):
+def run_stage(chk, rng, ncases, grounds=(None, None, 'ideal', 'ideal', 'real', 'real'), task='ff', tol=2e-7):
     cases = stage_lin.gen_cases(rng, ncases, grounds=grounds)
     shards = [cases[k::NCPU] for k in range(NCPU) if cases[k::NCPU]]
     res = run_workers(task, [dict(cases=s) for s in shards])
